@@ -483,8 +483,38 @@ fn eval_case_inner(line: &str) -> String {
         "WIRES" => {
             // several messages written one after the other to a byte stream with Frame::write and read back with
             // Frame::read: each comes back as itself, nothing is left over
-            let failed_first = t.get(1) == Some(&"!");
-            let msgs: Vec<Message<'static>> = t[if failed_first { 2 } else { 1 }..].iter().map(|s| msg_of_str(s)).collect();
+            // flags before the messages: "!" an earlier failed write elsewhere; "@" an earlier write elsewhere (on another
+            // thread) whose sink PANICKED, and an earlier read whose source panicked; "$" the last frame of the stream lacks
+            // its CR LF (the terminator is optional)
+            let nflags = t[1..].iter().take_while(|x| ["!", "@", "$"].contains(x)).count();
+            let flags = &t[1..1 + nflags];
+            let failed_first = flags.contains(&"!");
+            let unterminated = flags.contains(&"$");
+            if flags.contains(&"@") {
+                struct Bomb;
+                impl std::io::Write for Bomb {
+                    fn write(&mut self, _: &[u8]) -> std::io::Result<usize> {
+                        panic!("the sink panicked")
+                    }
+                    fn flush(&mut self) -> std::io::Result<()> {
+                        Ok(())
+                    }
+                }
+                impl std::io::Read for Bomb {
+                    fn read(&mut self, _: &mut [u8]) -> std::io::Result<usize> {
+                        panic!("the source panicked")
+                    }
+                }
+                let h = std::thread::spawn(|| {
+                    let _ = Frame::from(msg_of_str("RS.4660.PSH")).write(&mut Bomb);
+                });
+                let _ = h.join();
+                let h = std::thread::spawn(|| {
+                    let _ = Frame::read(&mut Bomb);
+                });
+                let _ = h.join();
+            }
+            let msgs: Vec<Message<'static>> = t[1 + nflags..].iter().map(|s| msg_of_str(s)).collect();
             let r = guarded(|| {
                 if failed_first {
                     // an earlier write of some other frame to a writer that accepts 5 bytes and then fails
@@ -509,6 +539,9 @@ fn eval_case_inner(line: &str) -> String {
                     if Frame::from(m.clone()).write(&mut stream).is_err() {
                         return "ER WRITE".to_string();
                     }
+                }
+                if unterminated && stream.len() >= 2 {
+                    stream.truncate(stream.len() - 2);
                 }
                 let mut cur = std::io::Cursor::new(stream);
                 let mut outs = vec![];
